@@ -454,9 +454,22 @@ def fromtk_compare(rep, drv, items, Circuit, origin):
             real = "ok " + T.import_tokens(Circuit.from_tk(t))
         except Exception as exc:
             real = "err " + err_class(exc)
+        ans, _, flags = ans.partition(" wf=")
+        flags = dict(kv.split("=") for kv in ("wf=" + flags).split()) if flags else {}
         if real != ans:
             rep.disagree("fromtk", case, real[:700], ans[:700])
+        # the hypotheses of the Lean theorems on this input
+        if origin != "malformed" and flags.get("wf") != "1":
+            rep.disagree("fromtk", case, "generated tket circuit is well-formed", "TkIn.wellFormed = false")
+        fits = len(t.post_processing.dom) == len(t.bits) - len(t.post_selection)
+        if flags.get("wf") == "1" and (flags.get("imp") != "1" or (fits and not real.startswith("ok"))):
+            rep.disagree("fromtk", case, "from_tk_importable / from_tk_total on a well-formed input",
+                         "imp=%s real=%s" % (flags.get("imp"), real[:60]))
+        late = T.gate_after_postselected_measure(T.raw_commands(t), {int(k) for k in t.post_selection})
+        if flags.get("final") != ("0" if late else "1"):
+            rep.disagree("fromtk", case, "psFinal = %s" % (not late), "final=%s" % flags.get("final"))
         rep.count("fromtk_checked:" + origin)
+        rep.count("fromtk_wellformed:" + flags.get("wf", "?"))
         rep.count("fromtk:" + (real.split()[1] if real.startswith("err") else "ok"))
 
 
